@@ -64,6 +64,9 @@ class Req:
     def __init__(self, cores, memory, disk, mount, disk2=None):
         self.cores, self.memory, self.disk, self.mount, self.disk2 = cores, memory, disk, mount, disk2
 
+    async def save(self, database):
+        return {"type": "harness.sched_lib.Req", "params": {}}
+
     def eval(self, job):
         from streamflow.core.scheduling import Hardware, Storage
 
